@@ -9,6 +9,6 @@ git -C $WT apply "$1" || { echo "PATCH DOES NOT APPLY"; exit 3; }
 set +e
 mkdir -p /tmp/vt-verif && cp /verif/known_findings.json /tmp/vt-verif/
 cd /verif && . ./env.sh
-bin/verifcheck -prop "$2" -tier "${3:-quick}" -repo $WT -verif /tmp/vt-verif | grep -v "^rule " | cut -c1-400
+bin/verifcheck -prop "$2" -tier "${3:-quick}" -repo $WT -verif /tmp/vt-verif ${VERIF_CONFIG:+-config $VERIF_CONFIG} | grep -v "^rule " | cut -c1-400
 code=$?
 git -C $WT checkout -q -- .
